@@ -148,7 +148,10 @@ def run(c):
     c03.validate(c, traces, meta, lambda m: m['closes'] >= 2)
     c.extra['spans_closed'] = sum(m['closes'] for m in meta)
     # capture tracepoints (deferred snapshots): completed once, on their thread, with the opening invocation's result
-    traces, meta = c03.run_scenarios(c, rng, wd, 60 if quick else 1500, 0.8, 'captures', 'k', capture=True)
+    traces, meta = c03.run_scenarios(c, rng, wd, 60 if quick else 1500, 0.8, 'captures', 'k', capture=True,
+                                     curated=[([M(1, 'a', 'f', 'capture')], [[('a.f', [('call', 'a.f', [('line',)])])]]),
+                                              ([M(1, 'a', 'g', 'capture'), L(2, 'a', 'f_call', 'capture')],
+                                               [[('a.f', [('call', 'a.g', [('line',)]), ('try', 'a.g', [('raise',)])])]])])
     c03.validate(c, traces, meta, lambda m: m['closes'] >= 1)
     c.extra['captures_completed'] = sum(m['closes'] for m in meta)
     line_level_leg(c, wd, 1 if quick else 2, 150 if quick else 6000)
